@@ -270,3 +270,35 @@ func tokenSpans(src string) ([]span, bool) {
 }
 
 func isGapByte(b byte) bool { return b == ' ' || b == '\t' || b == '\n' || b == '\r' || b == '\f' || b == '\v' }
+
+// stratifiedCorpus returns up to `per` enabled corpus statements (≤ maxLen bytes) for every distinct statement kind, where the
+// kind is the first three words in upper case (e.g. "SYSTEM SYNC REPLICA", "ALTER TABLE T" collapses table names poorly but
+// keeps rare verbs apart): a random sample of 110 k statements hits the rare kinds too seldom in the quick tier.
+func stratifiedCorpus(stmts []corpusStmt, per, maxLen int) []string {
+	seen := map[string]int{}
+	var out []string
+	for _, s := range stmts {
+		if !s.Enabled || len(s.Text) > maxLen {
+			continue
+		}
+		f := strings.Fields(strings.ToUpper(s.Text))
+		if len(f) == 0 {
+			continue
+		}
+		if len(f) > 3 {
+			f = f[:3]
+		}
+		// identifiers in 2nd/3rd position would make every statement its own kind: keep only keyword-like words there
+		k := f[0]
+		for _, w := range f[1:] {
+			if token.Lookup(strings.Trim(w, "();,")) != token.IDENT {
+				k += " " + w
+			}
+		}
+		if seen[k] < per {
+			seen[k]++
+			out = append(out, s.Text)
+		}
+	}
+	return out
+}
